@@ -189,9 +189,8 @@ mod inner {
             }
         }
         pub fn display_len(outs: impl AsRef<[Self]>) -> i16 {
-            outs.as_ref().iter().copied().fold(0i16, |mut len, out| {
-                len += out.output_char_count();
-                len
+            outs.as_ref().iter().copied().fold(0i16, |len, out| {
+                len.saturating_add(out.output_char_count())
             })
         }
         pub fn output_char_count(self) -> i16 {
